@@ -292,4 +292,7 @@ func init() {
 	registerTranslatorOps()
 	registerTLSIdentityOps()
 	registerServerOps()
+	registerTokColOps()
+	registerTLSChainOps()
+	registerPxOps()
 }
